@@ -89,6 +89,11 @@ type typedArgVertex struct {
 	Subtype string
 
 	Value reflect.Value
+
+	// ValueFor is the name preference (see callState.Affinity) under which
+	// Value was chosen. A function that needs an argument of this type takes
+	// the value as it is only when it is reached under the same preference.
+	ValueFor string
 }
 
 func (v *typedArgVertex) Hashcode() interface{} {
